@@ -208,6 +208,42 @@ func c12DocLayouts() []string {
 	}
 }
 
+// c12HouseGrid: every house layout written out for a grid of instants, with
+// and without leading zeros in day / hour (Go's layouts accept both where the
+// layout element is not zero-padded... and the parser decides), and with
+// positive, negative and half-hour numeric zones where the layout has one.
+func c12HouseGrid() []string {
+	type inst struct {
+		y, mo, d, h, mi, s, ms int
+	}
+	mon := []string{"Jan", "Feb", "Mar", "Apr", "May", "Jun", "Jul", "Aug", "Sep", "Oct", "Nov", "Dec"}
+	wd := func(i inst) string {
+		return time.Date(i.y, time.Month(i.mo), i.d, 0, 0, 0, 0, time.UTC).Weekday().String()[:3]
+	}
+	var out []string
+	for _, i := range []inst{{2021, 12, 2, 11, 55, 34, 164}, {2017, 1, 6, 6, 5, 7, 0}, {1999, 10, 10, 23, 59, 59, 999}, {2038, 2, 28, 0, 0, 0, 1}, {2024, 2, 29, 9, 30, 0, 500}} {
+		for _, pad := range []bool{true, false} {
+			dd, hh := fmt.Sprintf("%02d", i.d), fmt.Sprintf("%02d", i.h)
+			if !pad {
+				dd, hh = fmt.Sprint(i.d), fmt.Sprint(i.h)
+			}
+			for _, z := range []string{"+0000", "-0500", "+0530", "-1130", "+1400", "-0000"} {
+				out = append(out, fmt.Sprintf("%s/%s/%04d:%s:%02d:%02d %s", dd, mon[i.mo-1], i.y, hh, i.mi, i.s, z))
+			}
+			out = append(out,
+				fmt.Sprintf("%s %s %04d %s:%02d:%02d.%03d", dd, mon[i.mo-1], i.y, hh, i.mi, i.s, i.ms),
+				fmt.Sprintf("%02d%02d%02d %s:%02d:%02d", i.y%100, i.mo, i.d, hh, i.mi, i.s),
+				fmt.Sprintf("%04d/%02d/%02d - %s:%02d:%02d", i.y, i.mo, i.d, hh, i.mi, i.s),
+				fmt.Sprintf("%s %s %s %s:%02d:%02d.%06d %04d", wd(i), mon[i.mo-1], dd, hh, i.mi, i.s, i.ms*1000, i.y),
+				fmt.Sprintf("%s %s  %s %s:%02d:%02d.%06d %04d", wd(i), mon[i.mo-1], fmt.Sprint(i.d), hh, i.mi, i.s, i.ms*1000, i.y),
+				fmt.Sprintf("%04d-%02d-%02d %s:%02d:%02d.%03d UTC", i.y, i.mo, i.d, hh, i.mi, i.s, i.ms),
+				fmt.Sprintf("%s %s %s:%02d:%02d.%03d", dd, mon[i.mo-1], hh, i.mi, i.s, i.ms), // year-less (an unspecified cell: depends on the clock)
+			)
+		}
+	}
+	return out
+}
+
 func c12Time(w *run.Worker) {
 	S, Id := rt.Str, rt.Id
 	zones := []string{"", "+0", "+8", "-3:30", "+5:45", "+5:30", "-8", "-5", "+9", "+3", "Asia/Shanghai", "America/New_York", "Europe/London", "UTC", "CST", "+99", "-13", "Mars/Base", "+8:00", "8", "+08"}
@@ -255,6 +291,15 @@ func c12Time(w *run.Worker) {
 				continue
 			}
 			run1(lay, nil, sit)
+		}
+	}
+	eight, sh := "+8", "Asia/Shanghai"
+	for gi, g := range c12HouseGrid() {
+		for zi, z := range []*string{nil, &eight, &sh} {
+			if !w.Take() {
+				continue
+			}
+			run1(g, z, []int{sitField, sitVar, sitTag}[(gi+zi)%3])
 		}
 	}
 	for _, b := range base {
@@ -366,6 +411,19 @@ func c12XMLSQL(w *run.Worker) {
 		"select 1; select 2", "sElEcT 1", "select * from t limit 10 offset 5", "call proc(1, 'x')", "select * from t where a like '%x%'", "   ", "select é from t where n = 'é'",
 		int64(5), nil,
 	}
+	// two statements in one run: the result for the second must not depend on the first
+	// (backslashes make the tokenizer retry in its other escape mode)
+	bs := []string{`select * from t where dir = 'C:\'`, `select "prod\users" from t`, `select * from t where a = 'x\'y' and secret = 1`, `select 'a\\b', "c\\d"`, "select 1 -- plain", `update t set p = 'a\b' where q = "\"`}
+	for _, q1 := range bs {
+		for _, q2 := range bs {
+			if !w.Take() {
+				continue
+			}
+			pt := PointSpec{Meas: "m", Tags: map[string]string{"k3": q2}, Fields: map[string]any{"k1": q1, "k2": q2}}
+			stmts := []*rt.Node{rt.Call("sql_cover", Id("k1")), rt.Call("sql_cover", Id("k2")), rt.Call("sql_cover", Id("k3")), rt.Call("p", Id("k1"), Id("k2"), Id("k3"))}
+			c12Exec(w, "sql_cover-sequence", stmts, pt, "")
+		}
+	}
 	for _, q := range sqls {
 		for _, sit := range []int{sitField, sitVar, sitTag, sitVarOverField, sitAbsent} {
 			if !w.Take() {
@@ -438,8 +496,8 @@ func init() {
 		Level: "model_checking",
 		Rule: "(1) every placement of up to 3 add_pattern definitions (one referring to the other two) and a grok call using a local, a dependent or a global pattern over the 8 slots of a 3-level block skeleton (top, if, nested if/else, else, for body, after), definition before or after the use: load verdict and run-time captures; " +
 			"(2) 14 patterns (all capture types, convertible and inconvertible text, pattern capturing into its own subject) x trim_space {absent,true,false} x 6 subject situations x 14 subject values; " +
-			"(3) default_time on the 66 documented layouts + 6 house layouts + non-timestamps, 4 base timestamps x 21 zone arguments (fixed-offset labels, IANA names, invalid) x subject situations; datetime over 18 formats x 4 precisions x 13 epoch values x 3 situations; " +
-			"(4) xml: 9 documents x 13 XPath queries x 4 destination spellings x subject situations; (5) sql_cover: 20 strings x 5 situations; oracle: whole final point incl. time, probe trace (grok's boolean), load verdict",
+			"(3) default_time on the 66 documented layouts + 6 house layouts + non-timestamps, every house layout written for 5 instants x {padded, unpadded day/hour} x 6 numeric zones (positive, negative, half-hour) x 3 zone arguments, 4 base timestamps x 21 zone arguments (fixed-offset labels, IANA names, invalid) x subject situations; datetime over 18 formats x 4 precisions x 13 epoch values x 3 situations; " +
+			"(4) xml: 9 documents x 13 XPath queries x 4 destination spellings x subject situations; (5) sql_cover: 20 strings x 5 situations, all ordered pairs of 6 backslash-bearing statements in one run; oracle: whole final point incl. time, probe trace (grok's boolean), load verdict",
 		Assumptions: []string{"grok, xmlquery/xpath, dateparse, time, obfuscate are the trusted engines, called directly by the reference", "zone labels are checked against fixed offsets for DST-free zones / winter dates; DST-in-January labels, the CST label and year-less layouts are unspecified cells; IANA names incl. UTC are also run with summer and DST-switch dates", "the text of the failure note after the prefix `time convert failed` is not compared"},
 		Run:            c12Run,
 		Replay:         c12Replay,
